@@ -348,3 +348,9 @@ package panos
 //vc:  assert[C03,C08] at "result = append(result, cmd)"#2 @groupsBehindAddresses o.needed && cmd0 == "type=config&xpath=" + (vsysPath + "/address-group/entry")
 //vc:  assert[C03,C08] at "result = append(result, cmd)"#3 @servicesBeforeServiceGroups (o.needed || o.edit) && cmd0 == "type=config&xpath=" + (vsysPath + "/service/entry") && (action == "edit") == o.edit && (action == "edit" || action == "set")
 //vc:  assert[C03,C08] at "result = append(result, cmd)"#4 @serviceGroupsLast o.needed && cmd0 == "type=config&xpath=" + (vsysPath + "/service-group/entry")
+
+// hasEqualizedGroups (closure 2 of equalize): a device group that an earlier
+// rule already claimed (and possibly changed) is not shared with a Netspoc group
+// that is not yet bound - whatever the member lists read from the device say.
+//vc:func (*rulesPair).equalize$2
+//vc:  ensures[C03] @claimedDeviceGroupNotShared old(gb.nameOnDevice) == "" && old(ga.needed) ==> !result
